@@ -5,6 +5,13 @@ ROOT = os.path.dirname(os.path.abspath(__file__))
 
 CLAIMED = {
  # id: (category, technique, level text, level note, design ref)
+ "C08": ("exploration", "runtime monitor: exact big-integer value of limb vectors before/after each call; exhaustive small scopes + random; release and debug-assertions builds",
+         "Every normalisation / shift / fused form (small and big accumulators, same and cross radix, four backends) and every integer encode/decode routine is executed "
+         "and its output compared on the torus with the exact value of the input times 2^offset (tolerance: the property's one unit of the last output limb, exact when the "
+         "output has enough limbs; digit range for equal radices; untouched columns/limbs). Radices <= 3 (quick) / <= 4 (thorough) with sizes <= 3 are enumerated completely "
+         "over all digit vectors incl. out-of-range digits and all offsets; the rest is sampled. Held on the executions observed.",
+         "Trusted: dashu-int big integers and the 40-line value model in harness/src/exact.rs; inputs bounded by 2^62 / 2^100 (no documented headroom figure exists).",
+         "DESIGN.md §C08"),
  "C09": ("exploration", "runtime monitor: index-level ring model + group-law metamorphic checks on executions of all four backends",
          "Every coefficient-domain HAL operation (small and big accumulator) is executed on random and enumerated shapes and compared limb by limb with an "
          "independent index-level model of Z[X]/(X^N+1); rotations and Galois elements are enumerated completely for N <= 64, the rest is sampled. "
